@@ -113,6 +113,31 @@ example : combineGo [(0, [{ id := 1, ctxs := [⟨1, 1, 5⟩], mons := [7] },
        [(0, [{ id := 1, ctxs := [⟨1, 1, 5⟩], mons := [7] }, { id := 4, hook := 1 }, { id := 5 }])]) := by
   decide
 
+/-- **C07.1, any position** (what the exported twin does for callers that pass a task which is not
+the head — addon-operator): the tasks merged are the longest run of combinable tasks from the *start*
+of the queue, the task itself skipped; exactly the tasks carrying their ids leave the queue. For a
+task in the middle this merges tasks standing *before* it (their contexts come after its own) — the
+property is stated for the head task, where this coincides with `combine_result`. -/
+theorem combine_anywhere (qs : QSet) (items : List Task) (t : Task) (f : Option (Task → Bool))
+    (hq : qs.get t.queue = some items) (hm : t.hasMeta = true) :
+    combineGo qs (some t.queue) t f id =
+      (let others := (items.filter (fun x => x.id != t.id)).takeWhile (combinable t f)
+       if others = [] then (.nil, qs)
+       else (.res (compact (t.ctxs ++ others.flatMap (·.ctxs))) (t.mons ++ others.flatMap (·.mons)),
+             qs.set t.queue (items.filter (fun x => !(others.map (·.id)).contains x.id)))) := by
+  simp only [combineGo, Option.bind_some, hq, hm, iterate_eq, id]
+  by_cases he : (items.filter (fun x => x.id != t.id)).takeWhile (combinable t f) = []
+  · simp [he]
+  · have hlen : (((items.filter (fun x => x.id != t.id)).takeWhile (combinable t f)).length == 0) = false := by
+      cases hmm : (items.filter (fun x => x.id != t.id)).takeWhile (combinable t f) with
+      | nil => exact absurd hmm he
+      | cons a b => simp
+    simp only [Bool.not_true, Bool.false_eq_true, if_false, hlen, he, hq]
+    rw [filterStep_mkPlan, mkPlan_combined, mkPlan_mons, compactGo_eq]
+
+example : combineGo [(0, [{ id := 1 }, { id := 2 }, { id := 3 }])] (some 0) { id := 2 } none id
+    = (.res [] [], [(0, [{ id := 2 }])]) := by decide
+
 /-! ### C07.2 the compaction -/
 
 /-- **C07.2 `compact_spec`** (a): the code's index loop computes `Spec.compact`. -/
